@@ -46,7 +46,24 @@ STRUCTS = {
     # pattern axis along a cube body diagonal with an exactly antiparallel copy
     'S20': ('o1', [dict(motif='collinear3', pose='antidiag111', at=(4.0, 5.0, 5.0)), dict(motif='collinear3', pose='diag111', at=(7.0, 2.0, 8.0))], 'collinear3'),
     'S21': ('t3', [dict(motif='planar3', pose='antidiag1-11', at=(3.0, 4.0, 3.0)), dict(motif='planar3', pose='p3', at=(6.0, 6.0, 5.0))], 'planar3'),
+    # orthogonal cell whose vectors are not axis-aligned
+    'S22': ('orot', [dict(motif='chiral4', pose='p1', at=(1.0, 6.0, 4.0)), dict(motif='chiral4', pose='p4', at=(-3.0, 9.0, 9.0)),
+                     dict(motif='chiral4', pose='p2', at=(-1.0, 3.0, 7.0), kind='mirror')], 'chiral4'),
+    # exact two-fold rotation about the pattern's own (x-aligned) axis
+    'S23': ('o1', [dict(motif='xaxis4', pose='flipx', at=(2.0, 3.0, 4.0)), dict(motif='xaxis4', pose='id', at=(5.0, 8.0, 9.0))], 'xaxis4'),
+    # far from the origin (a tolerance that scaled with the coordinate value would accept the pseudo-symmetric renumbering)
+    'S24': ('big', [dict(motif='pseudo6', pose='p1', at=(50.0, 52.0, 49.0))], 'pseudo6'),
+    'S24t': ('bigt', [dict(motif='pseudo6', pose='p4', at=(35.0, 40.0, 45.0))], 'pseudo6'),
+    # two copies stored site by site (see PERMS), first pattern element occurring twice
+    'S25': ('o1', [dict(motif='mirror-pair5', pose='p2', at=(2.5, 3.0, 3.0)), dict(motif='mirror-pair5', pose='p5', at=(6.5, 7.5, 8.0))], 'mirror-pair5'),
+    'S26': ('t1', [dict(motif='methanol6', pose='p1', at=(2.0, 2.5, 2.0)), dict(motif='methanol6', pose='p3', at=(5.5, 5.0, 4.0)),
+                   dict(motif='methanol6', pose='flipy', at=(2.5, 7.0, 6.0))], 'methanol6'),
+    # two occurrences sharing two atoms (C and F of a CH2F group; the second H is the mirror image of the first in the C-F plane... a
+    # three-atom pattern is planar, so both C-F-H triples are proper images); discovery order follows the coordinate scan, not the indices
+    'S27': ('o2', [dict(kind='raw', el=['H', 'C', 'F', 'H', 'Cl'], pos=[(-0.4, 0.9, 0.45), (0, 0, 0), (1.35, 0, 0), (-0.4, 0.9, -0.45), (-0.7, -1.5, 0.0)], pose='p3', at=(3.0, 6.0, 4.0))], 'CFH'),
 }
+EXPECTED = {'S27': [(1, 2, 0), (1, 2, 3)]}
+PERMS = {'S25': [0, 5, 1, 6, 2, 7, 3, 8, 4, 9]}
 PAT_POSE = {'S14': 'rz90', 'S15': 'ry90', 'S20': 'diag111', 'S21': 'diag1-11'}
 # stretch kind with factor 0.01 on a 1.3 A motif = 0.013 A: well inside the tolerance -> counts as an occurrence
 OCCURRENCE_KINDS = ('copy', 'stretch')
@@ -60,7 +77,8 @@ def run_find(ctx, p):
     shift = []
     for k in range(3):
         if k in p['axes']:
-            shift.append(ctx.real(f"t{k}", 0, 1))
+            lo, hi = (p.get('ranges') or {}).get(str(k), (0, 1))
+            shift.append(ctx.real(f"t{k}", lo, hi))
         else:
             shift.append(float(p.get('other', (0, 0, 0))[k]))
     rows = place(ctx, pos, cell, shift)
@@ -89,6 +107,8 @@ def run_find(ctx, p):
     expected = [tuple(inv[i] for i in g) for kind, g in groups if kind in OCCURRENCE_KINDS and p['struct'] != 'S6']
     if p['struct'] == 'S6':
         expected = [(inv[i],) for i, e in enumerate(els) if e == 'H']
+    if p['struct'] in EXPECTED:
+        expected = [tuple(inv[i] for i in g) for g in EXPECTED[p['struct']]]
     return dict(st=st, pat=pat, pat0=pat0, idx=idx, mpos=mpos, quats=quats, expected=expected, atol=atol, cell=cell,
                 els=[els[i] for i in order], motif=motif, groups=groups, inv=inv)
 
@@ -129,24 +149,32 @@ def std_instances(tier, seed, families=('face',)):
         kw.setdefault('family', 'find')
         out.append(dict(name=name, **kw))
     others = [(0.0, 0.0, 0.0), (0.37, 0.93, 0.55)]
-    quick_structs = ['S1', 'S2', 'S3', 'S4', 'S5', 'S6', 'S8', 'S10', 'S11', 'S12', 'S13', 'S14', 'S15', 'S16', 'S17', 'S18', 'S19', 'S20', 'S21']
+    quick_structs = ['S1', 'S2', 'S3', 'S4', 'S5', 'S6', 'S8', 'S10', 'S11', 'S12', 'S13', 'S14', 'S15', 'S16', 'S17', 'S18', 'S19', 'S20', 'S21', 'S22', 'S23', 'S24', 'S24t', 'S25', 'S26', 'S27']
     if tier == 'thorough':
         quick_structs.append('S9')
     for sname in quick_structs:
         for ax in range(3):
             o = others[(ax + len(sname)) % 2]
-            if tier == 'quick' and sname in ('S3', 'S5', 'S6', 'S8', 'S10', 'S11', 'S12', 'S13', 'S14', 'S15', 'S16', 'S17', 'S18', 'S19', 'S20', 'S21') and ax != (len(sname) + int(sname[1:])) % 3:
+            if tier == 'quick' and sname in ('S3', 'S5', 'S6', 'S8', 'S10', 'S11', 'S12', 'S13', 'S14', 'S15', 'S16', 'S17', 'S18', 'S19', 'S20', 'S21', 'S22', 'S23', 'S24', 'S24t', 'S25', 'S26') and ax != (1 if sname == 'S24t' else (len(sname) + int(sname[1:])) % 3):
                 continue
             add(f"find:{sname}:axis{ax}:other{others.index(o)}", struct=sname, axes=[ax], other=o, cost=15,
-                **({'pat_pose': PAT_POSE[sname]} if sname in PAT_POSE else {}))
+                **({'pat_pose': PAT_POSE[sname]} if sname in PAT_POSE else {}), **({'perm': PERMS[sname]} if sname in PERMS else {}))
+    for ax in (0, 1, 2):
+        add(f"find:S27:axis{ax}:two-occurrences-sharing-atoms", struct='S27', axes=[ax], other=(0.15, 0.8, 0.45), cost=10)
     add("find:S7:axis0:ch4-random-choice", struct='S7', axes=[0], other=(0, 0.4, 0.9), cost=60)
     add("find:S7:axis2:ch4-swapped-storage-order", struct='S7', axes=[2], other=(0.3, 0.4, 0), perm=[0, 2, 1, 3, 4], cost=60)
     add("find:S12:axis1:swapped-storage-order", struct='S12', axes=[1], other=(0.3, 0, 0.9), perm=[0, 2, 1, 3, 5, 4], cost=30)
+    # edge crossing: two symbolic shift axes, each restricted to the window in which the planted copy crosses that face
+    add("find:S1:edge-window:axes01", struct='S1', axes=[0, 1], other=(0, 0, 0.3), ranges={'0': (0.72, 0.86), '1': (0.64, 0.78)}, cost=60)
+    # corner crossing: three symbolic shift axes in the windows where the copy crosses all three faces
+    add("find:S1:corner-window:axes012", struct='S1', axes=[0, 1, 2], other=(0, 0, 0), ranges={'0': (0.72, 0.86), '1': (0.64, 0.78), '2': (0.55, 0.72)}, cost=90)
     add("find:S1:axis0:atol-sym", struct='S1', axes=[0], other=(0, 0.3, 0.95), atol='sym', atol_lo=0.01, atol_hi=0.2, cost=40)
     if tier == 'thorough':
         for sname in ['S1', 'S2', 'S4']:
             for axes in ([0, 1], [1, 2], [0, 2]):
                 add(f"find:{sname}:axes{axes}", struct=sname, axes=axes, other=(0.21, 0.47, 0.83), cost=600)
+        add("find:S2:corner-window:axes012:triclinic", struct='S2', axes=[0, 1, 2], other=(0, 0, 0), ranges={'0': (0.80, 0.95), '1': (0.70, 0.85), '2': (0.72, 0.86)}, cost=1500)
+        add("find:S9:edge-window:axes02:arbitrary-orientation", struct='S9', axes=[0, 2], other=(0, 0.3, 0), ranges={'0': (0.85, 0.99), '2': (0.8, 0.99)}, cost=900)
         for sname in ['S2', 'S3', 'S5', 'S12']:
             add(f"find:{sname}:axis1:atol-sym", struct=sname, axes=[1], other=(0.9, 0, 0.2), atol='sym', atol_lo=0.01,
                 atol_hi=0.05 if sname == 'S2' else 0.12, cost=100)
